@@ -36,7 +36,7 @@ var c20WrongShape = []string{`null`, `true`, `{}`, `[]`, `""`, `" "`, `"abc"`, `
 type c20Runner struct {
 	stat  *vhStat
 	fails *vhFailures
-	cause func(typeName string, check string, v any) string
+	cause func(typeName string, check string, v any, decoded any) string
 }
 
 // roundTrip checks one value; returns the JSON text ("" on marshal failure).
@@ -47,20 +47,20 @@ func (r *c20Runner) roundTrip(v any) string {
 	var err error
 	r.stat.add(rt.String() + "|" + vhDump(v))
 	if p := vhSafe(func() { b, err = json.Marshal(v) }); p != "" || err != nil {
-		r.fails.add(r.cause(name, "marshal", v), "%s %s: json.Marshal failed: %v %v", rt, vhDump(v), p, err)
+		r.fails.add(r.cause(name, "marshal", v, nil), "%s %s: json.Marshal failed: %v %v", rt, vhDump(v), p, err)
 		return ""
 	}
 	if !json.Valid(b) {
-		r.fails.add(r.cause(name, "invalid_json", v), "%s %s: output is not valid JSON: %q", rt, vhDump(v), b)
+		r.fails.add(r.cause(name, "invalid_json", v, nil), "%s %s: output is not valid JSON: %q", rt, vhDump(v), b)
 		return ""
 	}
 	fresh := reflect.New(rt)
 	if p := vhSafe(func() { err = json.Unmarshal(b, fresh.Interface()) }); p != "" || err != nil {
-		r.fails.add(r.cause(name, "unmarshal", v), "%s %s: JSON %s does not parse back: %v %v", rt, vhDump(v), b, p, err)
+		r.fails.add(r.cause(name, "unmarshal", v, nil), "%s %s: JSON %s does not parse back: %v %v", rt, vhDump(v), b, p, err)
 		return string(b)
 	}
 	if d := vhDiff(v, fresh.Elem().Interface()); d != "" {
-		r.fails.add(r.cause(name, "differs", v), "%s %s: JSON %s parses back to %s: %s", rt, vhDump(v), b, vhDump(fresh.Elem().Interface()), d)
+		r.fails.add(r.cause(name, "differs", v, fresh.Elem().Interface()), "%s %s: JSON %s parses back to %s: %s", rt, vhDump(v), b, vhDump(fresh.Elem().Interface()), d)
 	}
 	return string(b)
 }
@@ -69,11 +69,11 @@ func (r *c20Runner) roundTrip(v any) string {
 func (r *c20Runner) feed(rt reflect.Type, doc []byte) {
 	r.stat.add(rt.String() + "|doc|" + string(doc))
 	if p := vhSafe(func() { _ = json.Unmarshal(doc, reflect.New(rt).Interface()) }); p != "" {
-		r.fails.add(r.cause(rt.Name(), "panic_via_json_unmarshal", nil), "%s: json.Unmarshal panics on %q (hex %x): %s", rt, doc, doc, p)
+		r.fails.add(r.cause(rt.Name(), "panic_via_json_unmarshal", nil, nil), "%s: json.Unmarshal panics on %q (hex %x): %s", rt, doc, doc, p)
 	}
 	if u, ok := reflect.New(rt).Interface().(json.Unmarshaler); ok {
 		if p := vhSafe(func() { _ = u.UnmarshalJSON(append([]byte{}, doc...)) }); p != "" {
-			r.fails.add(r.cause(rt.Name(), "panic_in_unmarshaljson_method", nil), "%s: UnmarshalJSON panics on %q (hex %x): %s", rt, doc, doc, p)
+			r.fails.add(r.cause(rt.Name(), "panic_in_unmarshaljson_method", nil, nil), "%s: UnmarshalJSON panics on %q (hex %x): %s", rt, doc, doc, p)
 		}
 	}
 }
@@ -110,14 +110,23 @@ func (r *c20Runner) mutate(rt reflect.Type, seeds []string) {
 	}
 }
 
-func c20TlbCause(typeName, check string, v any) string {
+// c20TlbCause gives a known root-cause name only when the evidence of exactly that cause is present:
+//   - rc_signedcoins_negative_uses_parseuint: a NEGATIVE SignedCoins whose own JSON text is rejected by UnmarshalJSON.
+//   - rc_msgaddress_empty_extern_reads_as_none: an addr_extern of 0 bits, whose JSON text is "", parses back as addr_none
+//     (and nothing else differs: the decoded value is exactly MsgAddress{SumType: "AddrNone"}).
+//
+// Everything else is rc_unclassified/<type>/<check> (or rc_panic/...).
+func c20TlbCause(typeName, check string, v any, decoded any) string {
 	switch {
-	case typeName == "SignedCoins" && (check == "unmarshal" || check == "differs"):
+	case typeName == "SignedCoins" && check == "unmarshal":
 		if sc, ok := v.(SignedCoins); ok && sc < 0 {
 			return "rc_signedcoins_negative_uses_parseuint"
 		}
 	case typeName == "MsgAddress" && check == "differs":
-		if a, ok := v.(MsgAddress); ok && a.SumType == "AddrExtern" && a.AddrExtern.BitsAvailableForRead() == 0 {
+		a, ok := v.(MsgAddress)
+		d, ok2 := decoded.(MsgAddress)
+		if ok && ok2 && a.SumType == "AddrExtern" && a.AddrExtern != nil && a.AddrExtern.BitsAvailableForRead() == 0 &&
+			vhDiff(d, MsgAddress{SumType: "AddrNone"}) == "" {
 			return "rc_msgaddress_empty_extern_reads_as_none"
 		}
 	}
@@ -175,7 +184,14 @@ func TestVerifStandin_C20_JSON(t *testing.T) {
 					if p := vhSafe(func() { err = json.Unmarshal([]byte(doc), fresh.Interface()) }); p != "" {
 						r.fails.add("rc_panic/"+rt.Name()+"/out_of_range", "%s: panic on %s: %s", rt, doc, p)
 					} else if err == nil {
-						r.fails.add("rc_fixed_int_out_of_range_accepted", "%s: document %s (outside %s..%s) accepted as %s", rt, doc, lo, hi, vhDump(fresh.Elem().Interface()))
+						// known finding, exactly this: Int1 (range -1..0) accepts -2 as -1, because strconv.ParseInt with
+						// bitSize 1 clamps the magnitude to 1 and then does not report the range error. Any other width or
+						// value accepted out of range is a different defect and gets its own name.
+						cause := "rc_unclassified/" + rt.Name() + "/out_of_range_accepted"
+						if rt.Name() == "Int1" && out.Cmp(big.NewInt(-2)) == 0 && fresh.Elem().Int() == -1 {
+							cause = "rc_fixed_int_out_of_range_accepted"
+						}
+						r.fails.add(cause, "%s: document %s (outside %s..%s) accepted as %s", rt, doc, lo, hi, vhDump(fresh.Elem().Interface()))
 					}
 				}
 			}
